@@ -2,8 +2,12 @@
 // mod ops_cXX;   and a line in dispatch_more.
 mod ops_c20;
 mod ops_c13;
+mod ops_c17;
+mod ops_c14;
 fn dispatch_more(op: &str, args: &[String]) -> Option<String> {
     if let Some(r) = ops_c20::run(op, args) { return Some(r); }
     if let Some(r) = ops_c13::run(op, args) { return Some(r); }
+    if let Some(r) = ops_c17::run(op, args) { return Some(r); }
+    if let Some(r) = ops_c14::run(op, args) { return Some(r); }
     None
 }
